@@ -17,7 +17,7 @@ import (
 // block — the subset is chosen by subset-sum over the real sortition seat counts so that the
 // tally lands exactly on, one below or just above the quorum, or everybody votes. Byzantine
 // frames (the simulator holds the keys) are inserted between honest actions, honest actions
-// may be taken out of order, and frames/timers may overtake pending mux deliveries.
+// may be taken out of order, and frames may overtake pending mux deliveries (time never does).
 
 type subsetMode int
 
@@ -36,6 +36,7 @@ type plan struct {
 	props      []*proposal
 	target     *proposal // the block the honest network votes for (nil: none)
 	alt        common.Hash
+	altProp    *proposal // the competing proposal, if alt is one
 	q          []*action
 	activeKind ucon.VoteType
 	byzLeft    int
@@ -114,6 +115,15 @@ func pickSubset(cands []*credential, need int64, mode subsetMode) []*credential 
 	return out
 }
 
+func containsCred(l []*credential, c *credential) bool {
+	for _, x := range l {
+		if x == c {
+			return true
+		}
+	}
+	return false
+}
+
 func sumWeights(cs []*credential) (s uint64) {
 	for _, c := range cs {
 		s += uint64(c.weight)
@@ -162,22 +172,31 @@ func (w *world) buildPlan(ck ctxKey, prev *plan) *plan {
 				p.target = pr
 			}
 		}
+		// Message loss: the winning proposal never reaches this node (it only knows the
+		// competitor), while the rest of the network votes for the winner.
+		lost := len(p.props) == 2 && c.Chance("winning-proposal-lost", 1, 4)
+		if lost {
+			w.r.Fault("net.proposal-lost")
+			w.r.Logf("plan %s: the proposal frames of %s are lost on the way to this node", ck, hname(p.target.block.Hash()))
+		}
 		// the best proposal travels first (the engine relays/keeps only what is the maximum so far)
 		for _, pr := range p.props {
-			if pr == p.target {
+			if pr == p.target && !lost {
 				p.q = append(p.q, &action{kind: aPriority, prop: pr, desc: "priority " + hname(pr.block.Hash())}, &action{kind: aBlock, prop: pr, desc: "block " + hname(pr.block.Hash())})
 			}
 		}
 		for _, pr := range p.props {
 			if pr != p.target {
 				p.q = append(p.q, &action{kind: aPriority, prop: pr, desc: "priority " + hname(pr.block.Hash())}, &action{kind: aBlock, prop: pr, desc: "block " + hname(pr.block.Hash())})
-				p.alt = pr.block.Hash()
+				p.alt, p.altProp = pr.block.Hash(), pr
 			}
 		}
 	}
 	if p.alt == (common.Hash{}) {
 		p.alt = w.unknownHash()
 	}
+	// an honest minority that saw the competitor first votes for it (two hashes in one tally)
+	minority := p.altProp != nil && c.Chance("minority-votes-competitor", 1, 2)
 	p.q = append(p.q, tickAction(), tickAction()) // step 1, step 2 (own prevote)
 	if p.target == nil {
 		w.r.Logf("plan %s: nobody wins a proposer seat", ck)
@@ -222,15 +241,32 @@ func (w *world) buildPlan(ck ctxKey, prev *plan) *plan {
 		for _, cr := range chosen {
 			p.q = append(p.q, w.voteAction(cr.key, kind, ck, th, tp))
 		}
+		if minority {
+			for _, cr := range cands {
+				if !containsCred(chosen, cr) {
+					p.q = append(p.q, w.voteAction(cr.key, kind, ck, p.alt, p.altProp.prio))
+				}
+			}
+		}
 	}
 	p.closing = c.Weighted("closing", []int{3, 2, 2})
 	return p
 }
 
 // nextAction is the generator: the next thing the outside world does to the engine.
-func (w *world) nextAction() *action {
+func (w *world) nextAction(overtake bool) *action {
 	c, cfg := w.c, w.cfg
 	ek := w.engineCtx()
+	// The window between the engine moving on (Server.roundIndex/currentRound already changed by a
+	// timeout, an index change or a new head) and the Voter/MessageHandler being told: frames for
+	// the context the voter is still in are "current" for it.
+	if overtake && w.plan != nil && w.plan.ck != ek && w.voterSet && w.voterCtx == w.plan.ck && cfg.byz > 0 && c.Chance("frame-in-window", 1, 2) {
+		w.plan.activeKind = []ucon.VoteType{ucon.Prevote, ucon.Precommit}[c.Intn("window-kind", 2)]
+		if a := w.genByz(w.plan); a != nil {
+			w.r.Probe("Byzantine frame while the voter lags behind the engine")
+			return a
+		}
+	}
 	if w.plan == nil || w.plan.ck != ek {
 		if w.ctxSeen >= cfg.nCtx {
 			return nil
@@ -246,6 +282,9 @@ func (w *world) nextAction() *action {
 		}
 	}
 	if len(p.q) == 0 {
+		if overtake {
+			return nil // closing actions advance time or import a block: after the pending deliveries
+		}
 		return w.closingAction(p)
 	}
 	j := 0
@@ -254,6 +293,11 @@ func (w *world) nextAction() *action {
 		w.r.Fault("schedule.reorder")
 	}
 	a := p.q[j]
+	if overtake && a.kind == aTick {
+		// Simulated time never passes while a mux delivery is pending (in production the posting
+		// goroutine delivers within micro- to milliseconds); only network frames squeeze in.
+		return nil
+	}
 	p.q = append(p.q[:j], p.q[j+1:]...)
 	if a.kind == aVote {
 		p.activeKind = a.spec.kind
